@@ -62,13 +62,19 @@ func machineInstance(ctx context.Context) error {
 	return err
 }
 
-type mBackoff struct{ stopAfter int }
+type mBackoff struct {
+	stopAfter int
+	zero      bool // every interval is 0: retry at once (still a retry, not "give up")
+}
 
 func (b *mBackoff) NextBackOff() time.Duration {
 	n := int(vsched.CtrAdd(mBoNext, 1))
 	vsched.Observe(oVal, 1, int64(n), 0)
 	if b.stopAfter > 0 && n > b.stopAfter {
 		return -1 // backoff.Stop
+	}
+	if b.zero {
+		return 0
 	}
 	return time.Second
 }
@@ -90,7 +96,7 @@ type machine struct {
 	ctx        int // 0 = nil, else tag
 	hasRoutine bool
 	st         int
-	bo         int // 0 none, 1 constant, 2 stop after the first interval
+	bo         int // 0 none, 1 constant, 2 stop after the first interval, 3 constant zero interval
 	armed      bool
 	loose      bool // the statement does not say whether a retry is still pending: accept either
 	nextCalls  int
@@ -129,7 +135,7 @@ type machineAPI struct {
 func machineBody(depth int, alphabet []int, stateVariant bool) func() {
 	return func() {
 		bg := context.Background()
-		m := &machine{bo: vsched.Choose(3)}
+		m := &machine{bo: vsched.Choose(4)}
 		opts := []routine.Option{
 			routine.WithExitCb(func(err error) { n := int(vsched.CtrAdd(mCbCalls, 1)) - 1; vsched.CtrSet(mCb0+n, 10*0+mErrCode(err)) }),
 			routine.WithExitCb(func(err error) { n := int(vsched.CtrAdd(mCbCalls, 1)) - 1; vsched.CtrSet(mCb0+n, 10*1+mErrCode(err)) }),
@@ -139,6 +145,8 @@ func machineBody(depth int, alphabet []int, stateVariant bool) func() {
 			opts = append(opts, routine.WithBackoff(&mBackoff{}))
 		case 2:
 			opts = append(opts, routine.WithBackoff(&mBackoff{stopAfter: 1}))
+		case 3:
+			opts = append(opts, routine.WithBackoff(&mBackoff{zero: true}))
 		}
 		var api machineAPI
 		state := 0
@@ -389,7 +397,7 @@ func init() {
 	ops := map[int32]string{oOp: "letter", oEnter: "enter", oExit: "exit", oVal: "backoff"}
 	eng.Register(&eng.Scenario{
 		Name: "routine-machine", Props: []string{"C14"}, QuickOnly: true, Det: true, Manual: true, NoRace: true, ObsNames: ops,
-		Doc:   "RoutineContainer: every sequence of 5 operations over {SetRoutine(new), SetContext(same|fresh, restart f|t), ClearContext, RestartRoutine, ExitCurrent(nil|E), FireRetryTimers, WaitExited probes} x {no back-off, constant, stop after one interval}; entries, running status, exit callbacks, WaitExited results and back-off calls compared with a reference machine after every operation",
+		Doc:   "RoutineContainer: every sequence of 5 operations over {SetRoutine(new), SetContext(same|fresh, restart f|t), ClearContext, RestartRoutine, ExitCurrent(nil|E), FireRetryTimers, WaitExited probes} x {no back-off, constant, stop after one interval, constant zero interval}; entries, running status, exit callbacks, WaitExited results and back-off calls compared with a reference machine after every operation",
 		Quick: eng.Bounds{PB: 0, Cap: 8000000}, Thorough: eng.Bounds{PB: 0},
 		Body: machineBody(5, base, false),
 	})
